@@ -359,6 +359,11 @@ def _gen_otsvg(rng, i=None):
         rng.shuffle(seqs)
         for g, cps in zip(glyphs, seqs):
             g.codepoints = cps
+        if forced == "prefix" and len(glyphs) >= 2 and glyphs[0].viewbox == glyphs[1].viewbox:
+            # ... and the two prefix-related glyphs share a shape (reuse spans the glyphs)
+            sh = next((x for x in e2e.all_shapes(glyphs[0]) if isinstance(x.fill, e2e.Solid)), None)
+            if sh is not None:
+                glyphs[1].items.append(e2e.Shape([(px + 2, py + 1) for px, py in sh.pts], e2e.Solid(e2e._rgb(rng)), 1.0))
     return {"glyphs": glyphs, "overrides": over_}
 
 
